@@ -387,6 +387,7 @@ RULES = {
     "C13": "generated scenarios run forked, CGREEN_NO_FORK and run_single_test; per-test credits and messages compared across modes and with the model; distinct by scenario text",
     "C17": "C01 scenarios under all reporter configurations; counts recovered from each native format and compared pairwise; distinct by scenario text",
     "C18": "tests with k checks for k around the channel capacity (cap-2..cap+1, 2cap, 3cap+7), overflowing test first/middle/last, both modes; distinct by scenario text",
+    "C11": "scenarios run under the xml and the libxml2 reporter (forked, some also CGREEN_NO_FORK): failure messages over the alphabet {<,>,&,quotes,%,%s,a,blank,Latin-1 and UTF-8 e-acute,]]>,&amp;,backslash} alone, with line breaks/tabs, and with control bytes, at lengths 1,7,1000,1001 (thorough 0..5000); 16 single special texts; string-operand assertions; 1,21,40,60 (to 200) failures in one test; one scenario with every outcome (pass, fail, skip_test, xEnsure, signals with and without delivered failures, empty) over nested suites; suite and test names with metacharacters / control / Latin-1 bytes; 70 tests under a 64-descriptor limit (1100 under 1024 thorough); 20 (400) random mixes; every file parsed with expat, per-test elements compared with the scripts, and for the xml reporter the whole file compared byte for byte with the Coq model's rendering; non-trivial = every run; distinct by (scenario, reporter, mode)",
     "C12": "integers from the boundary set (0, +-1, +-2^31(+-1), +-2^32(+-1), +-2^63, 2^k+-1) and random; double bit patterns (signed zeros, subnormals, infinities, quiet/signalling NaNs with random payloads, random bits); structures of every size in a range with random content; output parameters at every (offset, size) of small exact-size heap buffers plus larger ones; captures for every size in {1,2,4,8} x position x arity 1..8 with values exposing truncation, the wrong half of the word and sign; non-trivial = every probe; distinct by probe text",
     "C14": "three-test scenarios in which the test at position 0/1/2 overruns a 1-second limit after delivering 0, 1 (a failure) or 2 results, armed by CGREEN_PER_TEST_TIMEOUT or by die_in(), sleeping or blocked in pause(), in the forked, CGREEN_NO_FORK and run_single_test modes under several reporters; scenarios in which nobody overruns; 26 values of the variable (empty, zero, negative, non-numeric, trailing characters, signs, blanks, leading zeros, out of int range, valid); non-trivial = every run; distinct by (scenario, reporter, mode, environment)",
     "C15": "pairs of finite doubles: every 23rd (thorough: every) decade 10^k from 1e-320 to 1e308 with the power of ten itself, its two neighbours on each side and 0.9999999*10^k, each paired with itself, its successor, values at relative distance c*10^-n for c in {0.09,0.11,0.9,1.1,9,11} and n in {1,2,8,15} (thorough 1..15), the negated pair, a tiny opposite-sign value and its negation; 21x21 special values (signed zeros, subnormals, DBL_MIN, DBL_MAX, values around the absolute tolerance); random pairs (neighbours, relative perturbations, unrelated); every pair in both orders at 8 (thorough 15) figure settings through 8 public routes, and every third pair through is_less_than_double / is_greater_than_double; non-trivial = every probe; distinct by (kind, figures, bit patterns)",
